@@ -307,6 +307,9 @@ func runParent(args []string) int {
 	if def.FuzzTarget != "" && tier == core.Thorough {
 		m.runNativeFuzz(workdir)
 	}
+	if tier == core.Thorough {
+		m.runCoverage(workdir, *nshards)
+	}
 	code := m.finish(start, workdir)
 	return code
 }
@@ -358,6 +361,7 @@ type merge struct {
 	cpu         float64
 	extra       map[string]uint64
 	raceReports []raceReport
+	coverage    map[string]any
 	workersOK   int
 	workersAll  int
 }
@@ -540,6 +544,113 @@ func raceKey(blk string) string {
 		}
 	}
 	return strings.Join(uniq, "|")
+}
+
+// runCoverage re-runs a slice of the quick workload (4 of 16 shards) under a -cover build of
+// the harness whose counters include github.com/pion/rtcp, and reports the statement coverage
+// of the package per source file, in particular for the files the property is anchored in.
+// Evidence of reach only: it never produces a violation; an anchor file with zero coverage
+// makes the run inconclusive.
+func (m *merge) runCoverage(workdir string, nshards int) {
+	exe, _ := os.Executable()
+	cover := filepath.Join(filepath.Dir(exe), "vcheck-cover")
+	if _, err := os.Stat(cover); err != nil {
+		m.notes = append(m.notes, "coverage: no -cover build present, skipped")
+		return
+	}
+	covdir := filepath.Join(workdir, "cov")
+	_ = os.MkdirAll(covdir, 0o755)
+	var wg sync.WaitGroup
+	for i := 0; i < 4 && i < nshards; i++ {
+		wg.Add(1)
+		go func(i int) {
+			defer wg.Done()
+			out := filepath.Join(workdir, fmt.Sprintf("cov%02d.json", i))
+			cmd := exec.Command(cover, "worker", "-prop", m.prop, "-tier", "quick", "-seed", strconv.FormatUint(m.seed, 10),
+				"-shard", strconv.Itoa(i), "-nshards", strconv.Itoa(nshards), "-out", out)
+			cmd.Env = append(os.Environ(), "GOCOVERDIR="+covdir, "GOMAXPROCS=2")
+			_ = cmd.Run()
+		}(i)
+	}
+	wg.Wait()
+	txt := filepath.Join(workdir, "cov.txt")
+	if out, err := exec.Command("go", "tool", "covdata", "textfmt", "-i="+covdir, "-o="+txt).CombinedOutput(); err != nil {
+		m.notes = append(m.notes, "coverage: covdata failed: "+tail(string(out), 300))
+		return
+	}
+	b, err := os.ReadFile(txt)
+	if err != nil {
+		return
+	}
+	type fc struct{ total, hit int }
+	files := map[string]*fc{}
+	for _, l := range strings.Split(string(b), "\n") {
+		// github.com/pion/rtcp/header.go:98.46,107.42 2 1
+		if !strings.HasPrefix(l, "github.com/pion/rtcp/") {
+			continue
+		}
+		f := strings.Fields(l)
+		if len(f) != 3 {
+			continue
+		}
+		name := strings.TrimPrefix(f[0][:strings.Index(f[0], ":")], "github.com/pion/rtcp/")
+		n, _ := strconv.Atoi(f[1])
+		cnt, _ := strconv.Atoi(f[2])
+		if files[name] == nil {
+			files[name] = &fc{}
+		}
+		files[name].total += n
+		if cnt > 0 {
+			files[name].hit += n
+		}
+	}
+	per := map[string]any{}
+	tot, hit := 0, 0
+	for name, c := range files {
+		per[name] = map[string]any{"statements": c.total, "covered": c.hit, "percent": float64(int(1000*float64(c.hit)/float64(maxInt(c.total, 1)))) / 10}
+		tot += c.total
+		hit += c.hit
+	}
+	anchors := anchorFiles(m.prop)
+	var zero []string
+	for _, a := range anchors {
+		if c := files[a]; c != nil && c.total > 0 && c.hit == 0 {
+			zero = append(zero, a)
+		}
+	}
+	m.coverage = map[string]any{"how": "4 of 16 shards of the quick workload re-run under `go build -cover -coverpkg=github.com/pion/rtcp,...`",
+		"package_statements": tot, "package_covered": hit, "package_percent": float64(int(1000*float64(hit)/float64(maxInt(tot, 1)))) / 10,
+		"per_file": per, "anchor_files": anchors, "anchor_files_with_zero_coverage": zero}
+	if len(zero) > 0 {
+		m.inconcl = append(m.inconcl, "anchor files never reached by this check's workload: "+strings.Join(zero, ", "))
+	}
+}
+
+func maxInt(a, b int) int {
+	if a > b {
+		return a
+	}
+	return b
+}
+
+// anchorFiles reads the property's anchor file list from properties.jsonl.
+func anchorFiles(prop string) []string {
+	b, err := os.ReadFile(filepath.Join(verifRoot, "properties.jsonl"))
+	if err != nil {
+		return nil
+	}
+	for _, l := range strings.Split(string(b), "\n") {
+		var p struct {
+			ID      string `json:"id"`
+			Anchors struct {
+				Files []string `json:"files"`
+			} `json:"anchors"`
+		}
+		if json.Unmarshal([]byte(l), &p) == nil && p.ID == prop {
+			return p.Anchors.Files
+		}
+	}
+	return nil
 }
 
 // harnessDir is the module directory (the binaries live in <harness>/bin*/).
@@ -775,6 +886,9 @@ func (m *merge) finish(start time.Time, workdir string) int {
 		"extra":                                m.extra,
 		"technique":                            m.def.Technique,
 		"violation_replays":                    replayPaths,
+	}
+	if m.coverage != nil {
+		cov["statement_coverage_of_pion_rtcp"] = m.coverage
 	}
 	if m.def.RunRace != nil {
 		var rr []map[string]any
